@@ -9,7 +9,7 @@ PROP_FILE = 'Props/C08.v'
 EVAL_FILES = ['Oracle/C08Oracle.v', 'Proofs/BroadcastThreadsProofs.v']
 CRATES = ['c08']
 MODES = ['debug', 'release']
-IMPORTS = ('Require Import V.Base.MachineInt V.Model.LogBase V.Model.Broadcast V.Model.BroadcastThreads V.Model.BroadcastShow V.Spec.Lossy V.Oracle.C08Oracle.')
+IMPORTS = ('Require Import V.Base.MachineInt V.Model.LogBase V.Model.Broadcast V.Model.BroadcastThreads V.Model.BroadcastShow V.Spec.Lossy V.Spec.LossyJump V.Oracle.C08Oracle.')
 RULE = ('sequential histories of transmit / receive / dump on a real BroadcastTransmitter + CopyBroadcastReceiver over one buffer whose three '
         'trailer counters are preset to c0: c0 in {0, 2^31-2cap .. 2^31+2cap, 2^32-2cap .. 2^32+2cap, 2^40, random multiples of 8}; cap 32..4096 '
         '(and 65536 for the 4096-byte scratch limit); message lengths 0..cap/8 at every alignment; patterns: ping-pong, bursts that leave the '
@@ -194,10 +194,64 @@ def _conc_cases(rng, big):
     return cases
 
 
+def _lag_cases(rng, big):
+    """the receiver sleeps while 2^31 .. 2^33 (+cap) bytes go by: the harness advances the counters (J op)"""
+    cases = []
+    for cap in (32, 64, 1024):
+        deltas = [cap, cap + 8, 4 * cap]
+        for base in (2**31, 2**32, 2**33):
+            deltas += [base - cap, base - 8, base, base + 8, base + cap - 8, base + cap, base + cap + 8, base + 8 * rng.randrange(1, cap // 8)]
+        deltas += [2**31 + 8 * rng.randrange(0, 2**28) for _ in range(2)] + [2**32 - 2**20, 3 * 2**31]
+        c0s = [0, 2**31 - cap, 2**40] if big else [rng.choice([0, 2**31 - cap, 2**40])]
+        for c0 in c0s:
+            for d in deltas:
+                k = rng.randrange(0, 500)
+                mx = cap // 8
+                behind = rng.choice([0, 0, 1, 2])      # receiver caught up, or a little behind, when the jump happens
+                ops = []
+                for i in range(rng.randrange(1, 4)):
+                    ops += [['T', rng.choice(LEGAL), k + i, rng.randrange(0, mx + 1)], ['R']]
+                for i in range(behind):
+                    ops.append(['T', rng.choice(LEGAL), k + 10 + i, rng.randrange(0, min(mx, 4) + 1)])
+                ops.append(['J', d, rng.choice(LEGAL), k + 20, rng.randrange(0, mx + 1)])
+                ops += [['R'], ['R'], ['T', rng.choice(LEGAL), k + 30, rng.randrange(0, mx + 1)], ['R'], ['R'], ['D']]
+                cases.append({'kind': 'lag', 'cap': cap, 'c0': c0, 'pre': [], 'ops': ops})
+    return cases
+
+
+def _wrap_cases(rng, big):
+    """the record in flight is the first one after a padded wrap; the receiver is stopped at every point of its
+    receives while the transmitter goes round the buffer (exact fill, then a shorter record at offset 0)"""
+    cases = []
+    for cap in (32, 64):
+        mx = cap // 8
+        for c0 in ((0, 2**31 - cap, 2**40) if big else (rng.choice([0, 2**40]),)):
+            tys = rng.sample(LEGAL, len(LEGAL))
+            full = (cap - 8) // 16                       # 16-byte records, then one 8-byte record: tail offset cap - 8
+            pre = [[tys.pop(), 900 + i, mx] for i in range(full)] + [[tys.pop(), 950, 0]]
+            # offsets: cap 32: 16 + 8 = 24; cap 64: 48 + 8 = 56
+            msgs = [[tys.pop(), 10, mx]]                  # does not fit in 8 bytes: padding, record at offset 0
+            msgs += [[tys.pop(), 11 + i, mx] for i in range((cap - 16) // 16)]   # fills the buffer exactly to its end
+            msgs += [[tys.pop(), 30, 0], [tys.pop(), 31, mx]]                      # a shorter record at offset 0, then more
+            nrecv = 3
+            nt_first = 9
+            nt = _steps_tx(cap, c0, pre, msgs)
+            base = {'kind': 'conc', 'cap': cap, 'c0': c0, 'pre': pre, 'msgs': msgs, 'nrecv': nrecv}
+            nfill = (cap - 16) // 16
+            for b in range(1, 11 * nrecv):
+                # the transmitter stops after filling the buffer to its end / after the short record at offset 0,
+                # the receiver finishes, then the transmitter does
+                for c in (7 * nfill, 7 * nfill + 7):
+                    cases.append(dict(base, sched=[0] * nt_first + [1] * b + [0] * c + [1] * (11 * nrecv)))
+    return cases
+
+
 def generate(rng, tier):
     big = tier == 'thorough'
     cases = _seq_cases(rng, big)
+    cases += _lag_cases(rng, big)
     cases += _conc_cases(rng, big)
+    cases += _wrap_cases(rng, big)
     return cases
 
 
@@ -247,11 +301,11 @@ def _seq_cases(rng, big):
 
 
 def impl_line(c):
-    if c['kind'] == 'seq':
+    if c['kind'] in ('seq', 'lag'):
         parts = ['seq', str(c['cap']), str(c['c0'])]
         parts += ['P%d:%d:%d' % tuple(m) for m in c['pre']]
         for o in c['ops']:
-            parts.append('T%d:%d:%d' % tuple(o[1:]) if o[0] == 'T' else o[0])
+            parts.append('T%d:%d:%d' % tuple(o[1:]) if o[0] == 'T' else 'J%d:%d:%d:%d' % tuple(o[1:]) if o[0] == 'J' else o[0])
         return ' '.join(parts)
     if c['kind'] == 'conc':
         parts = ['conc', str(c['cap']), str(c['c0']), str(c['nrecv']), ','.join(str(t) for t in c['sched']) or '-']
@@ -283,6 +337,20 @@ def _ops_coq(c):
     return '[' + '; '.join(items) + ']'
 
 
+def _jops_coq(c):
+    items = []
+    for o in c['ops']:
+        if o[0] == 'T':
+            items.append('JOp (Transmit %s (payload %s %s))' % (z(o[1]), z(o[2]), z(o[3])))
+        elif o[0] == 'J':
+            items.append('JJump %s %s (payload %s %s)' % (z(o[1]), z(o[2]), z(o[3]), z(o[4])))
+        elif o[0] == 'R':
+            items.append('JOp Receive')
+        else:
+            items.append('JOp Dump')
+    return '[' + '; '.join(items) + ']'
+
+
 def _pre_coq(c):
     return '[' + '; '.join('(%s, payload %s %s)' % (z(m[0]), z(m[1]), z(m[2])) for m in c['pre']) + ']'
 
@@ -290,6 +358,8 @@ def _pre_coq(c):
 def model_expr(c, mode):
     if c['kind'] == 'seq':
         return 'map show_obs (run_history %s W64 true %s %s %s %s)' % (mode_c(mode), z(c['cap']), z(c['c0']), _pre_coq(c), _ops_coq(c))
+    if c['kind'] == 'lag':
+        return 'map show_obs (jrun_history %s W64 true %s %s %s %s)' % (mode_c(mode), z(c['cap']), z(c['c0']), _pre_coq(c), _jops_coq(c))
     if c['kind'] == 'conc':
         return 'show_conc %s (run_conc %s W64 true %s %s %s %s %d%%nat %s)' % (
             z(c['cap']), mode_c(mode), z(c['cap']), z(c['c0']), _msgs_coq(c['pre']), _msgs_coq(c['msgs']), c['nrecv'],
@@ -302,6 +372,10 @@ def oracle_expr(c, mode, obs):
         if isinstance(obs, int) or obs[0] != 'list':
             return 'false'
         return 'holds_seq %s %s %s %s %s' % (z(c['cap']), z(c['c0']), _pre_coq(c), _ops_coq(c), to_coq(obs))
+    if c['kind'] == 'lag':
+        if isinstance(obs, int) or obs[0] != 'list':
+            return 'false'
+        return 'holds_jseq %s %s %s %s %s' % (z(c['cap']), z(c['c0']), _pre_coq(c), _jops_coq(c), to_coq(obs))
     if c['kind'] == 'conc':
         if isinstance(obs, int) or obs[0] != 'app' or obs[1] not in ('CObs', 'CCrash'):
             return 'false'
@@ -331,6 +405,8 @@ def known_class(c, mode, obs):
 
 
 def nontrivial(c):
+    if c['kind'] == 'lag':
+        return True
     if c['kind'] == 'seq':
         cap = c['cap']
         sim = Sim(cap, c['c0'])
